@@ -64,6 +64,7 @@ type csDirector struct {
 	std    string
 	touched map[string]bool
 	feeCfg string
+	next   time.Time // block time of the block being filled
 }
 
 func runCoinswap(run *ev.Run, c int, mode string) {
@@ -91,6 +92,15 @@ func runCoinswap(run *ev.Run, c int, mode string) {
 	}
 	for b := 0; b < blocks; b++ {
 		d.touched = map[string]bool{}
+		// the time of the block these intents will run in is drawn first, so that deadlines can be placed exactly at, just
+		// before and just after it; block times carry a sub-second part like real consensus timestamps
+		dt := time.Duration(1+rng.Intn(20)) * time.Second
+		if rng.Intn(4) != 0 {
+			dt += time.Duration(1+rng.Intn(999)) * time.Millisecond
+		} else {
+			dt = r.Time.Add(dt).Truncate(time.Second).Sub(r.Time) // a whole-second block time
+		}
+		d.next = r.Time.Add(dt)
 		n := 1 + rng.Intn(5)
 		var txs []rig.Tx
 		for i := 0; i < n; i++ {
@@ -98,12 +108,21 @@ func runCoinswap(run *ev.Run, c int, mode string) {
 				txs = append(txs, tx)
 			}
 		}
-		br := r.DeliverBlock(time.Duration(1+rng.Intn(20))*time.Second, txs)
+		br := r.DeliverBlock(dt, txs)
 		d.observe(br)
 	}
 	run.Require("swap-single-ok", 1)
 	run.Require("add-ok", 1)
 	run.Require("remove-ok", 1)
+}
+
+func (d *csDirector) otherDenom(denom string) string {
+	for _, o := range d.denoms {
+		if o != denom {
+			return o
+		}
+	}
+	return denom
 }
 
 func (d *csDirector) pools(s *csSnap) map[string]cstypes.Pool {
@@ -171,6 +190,10 @@ func (d *csDirector) deadline(tag *csTag) int64 {
 	case 1:
 		tag.Deadline = "near"
 		return d.r.Time.Unix() + int64(rng.Intn(21))
+	case 2:
+		// the whole second the block time falls in (passed unless the block time is a whole second), one before, one after
+		tag.Deadline = "around-block-time"
+		return d.next.Unix() + int64(rng.Intn(3)) - 1
 	default:
 		tag.Deadline = "future"
 		return d.r.Time.Unix() + 3600
@@ -471,6 +494,10 @@ func (d *csDirector) intent(maxBits, blockNo int) (rig.Tx, bool) {
 			tag.Bound += "/stale"
 		}
 		d.touched[denom] = true
+		if rng.Intn(8) == 0 {
+			// hostile: a coin that is neither side of the pool (another pool's token, or this pool's own share token)
+			side, tag.Bound, minLiq = pick(rng, d.otherDenom(denom), ps.P.LptDenom), "foreign-denom", new(big.Int)
+		}
 		msg := &cstypes.MsgAddUnilateralLiquidity{CounterpartyDenom: denom, ExactToken: coin(side, amt), MinLiquidity: toInt(minLiq), Deadline: d.deadline(tag), Sender: a.Addr.String()}
 		return r.Mk(a, tag, msg), true
 	case 4: // unilateral remove
@@ -528,6 +555,9 @@ func (d *csDirector) intent(maxBits, blockNo int) (rig.Tx, bool) {
 		}
 		tag := &csTag{Kind: "donate"}
 		side := pick(rng, denom, d.std)
+		if rng.Intn(5) == 0 {
+			side, tag.Note = d.otherDenom(denom), "foreign-denom" // dust of a third denomination in the pool account
+		}
 		pa, _ := sdk.AccAddressFromBech32(ps.P.EscrowAddress)
 		d.touched[denom] = true
 		return r.Mk(a, tag, banktypes.NewMsgSend(a.Addr, pa, sdk.NewCoins(coin(side, randMag(rng, maxBits))))), true
@@ -612,6 +642,15 @@ func (d *csDirector) observe(br *rig.BlockRecord) {
 		run.Count(tag.Kind+"-"+okc, 1)
 		if tag.Kind == "swap" {
 			run.Count("swap-"+tag.Hop+"-"+okc, 1)
+		}
+		if tag.Bound == "foreign-denom" || tag.Note == "foreign-denom" {
+			run.Count(tag.Kind+"-foreign-denom-"+okc, 1)
+		}
+		if tag.Deadline == "around-block-time" {
+			run.Count("deadline-around-block-time-"+okc, 1)
+			if br.Time.Nanosecond() != 0 {
+				run.Count("deadline-around-sub-second-block-time-"+okc, 1)
+			}
 		}
 		if tx.Result != nil && !tx.OK() && (containsStr(tx.Result.Log, "panic") || containsStr(tx.Result.Log, "overflow")) {
 			run.Count("rejected-by-panic", 1)
